@@ -1,6 +1,6 @@
 """Property -> rules wiring and MANIFEST metadata."""
 from . import facts
-from .rules import f5_trace, f6_kinds, f7_roots, f4_gc
+from .rules import f5_trace, f6_kinds, f7_roots, f4_gc, f4_chan, f4_sched, f4_vm
 
 
 def D(rec):
@@ -34,9 +34,89 @@ def c20(rec, tier):
     f4_gc.intern_funnel(rec, F)
 
 
-CHECKS = {"C05": c05, "C09": c09, "C20": c20}
+def c07(rec, tier):
+    F = D(rec)
+    f4_chan.run(rec, F)
+
+
+def c08(rec, tier):
+    F = D(rec)
+    f4_sched.run(rec, F)
+
+
+def c15(rec, tier):
+    F = D(rec)
+    f4_vm.diagnostics_gate(rec, F)
+    f4_vm.diagnostics_flow(rec, F)
+    f4_vm.status_mapping(rec, F)
+
+
+def c16(rec, tier):
+    F = D(rec)
+    f4_vm.frame_limit(rec, F)
+
+
+def c17(rec, tier):
+    F = D(rec)
+    f4_vm.run_c17(rec, F)
+
+
+def c18(rec, tier):
+    F = D(rec)
+    f4_vm.run_c18(rec, F)
+
+
+def c19(rec, tier):
+    F = D(rec)
+    f4_vm.cache_coverage(rec, F)
+    f4_vm.diagnostics_gate(rec, F)
+
+
+CHECKS = {"C05": c05, "C07": c07, "C08": c08, "C09": c09, "C15": c15, "C16": c16, "C17": c17, "C18": c18, "C19": c19, "C20": c20}
 
 META = {
+    "C07": {
+        "text": "Necessary structural conditions of exactly-once FIFO delivery decided on ChannelQueue and the two VM handlers: the buffer is mutated only by send's push_back(val) and receive's pop_front; every enqueue is control-dependent on the strict len<capacity test or on (sync && empty) and on the Ready state; the closed protocol of close()/receive; views share the buffer and respect their direction; per result variant the queue moved the value XOR the handler rewinds and re-pushes. Decides these clauses, not ordering across interleavings of several senders/receivers.",
+        "note": "Trusts VecDeque's FIFO semantics; rewind width/stack neutrality are decided by F1.r (C06).",
+        "technique": "static analysis: who-may-write on a field, dominating-guard extraction, per-variant path effects on MIR",
+        "design_ref": "DESIGN.md §3 C07",
+    },
+    "C08": {
+        "text": "Scheduler shape decided over all VM code: one deadlock emission site under (ContextSwitch && fiber_queue empty); every ContextSwitch is preceded on all paths by exactly one block/sleep/complete and every park is followed by ContextSwitch; every parking arm first tries to wake a waiter; no created fiber is orphaned; complete() prefers a pending parent; every channel state change registers the channel with the acting fiber or wakes a waiter (findability). Decides these clauses, not liveness over all topologies.",
+        "note": "Wake-ups are lazy in Laythe (found via the acting fiber's used-channel list); the findability clause encodes that design.",
+        "technique": "static analysis: path-sensitive dataflow over MIR CFGs, dominance / post-dominance, call-graph who-may-call",
+        "design_ref": "DESIGN.md §3 C08",
+    },
+    "C15": {
+        "text": "Decides the 'nothing from a text with diagnostics is executed' clause: parse and resolve errors are propagated before the compiler runs, Compiler::compile returns Ok only when its diagnostics are empty, prepare/execute/ImportResult::Compiled are reachable only from compile's Ok arm, the REPL loop has no exit after a failed entry and keeps one module, every Exit signal carries a status. Totality/termination/panic-freedom for every input text is declined (not visible in code shape).",
+        "note": "The totality clause of C15 is not decided; see DESIGN.md §3 C15.",
+        "technique": "static analysis: dominating-guard extraction and reachability on MIR",
+        "design_ref": "DESIGN.md §3 C15",
+    },
+    "C16": {
+        "text": "Structural crash-freedom clauses over all natives and handlers: frame-limit guard dominates every push_frame; (further clauses added as rule families F9/F6 are wired in).",
+        "note": "Reachability of the ~40 'impossible state' internal_error sites is declined.",
+        "technique": "static analysis: dominance + taint on MIR",
+        "design_ref": "DESIGN.md §3 C16",
+    },
+    "C17": {
+        "text": "Export gate: every Module method through which the import handlers obtain symbol values consults Module.exports; module_instance iterates exports; get_exported_symbol_by_name returns Some only under exports.contains. Once-only: compile-and-run only on ModuleDoesNotExist, every Compiled result has passed insert_module of the same module, the importer sleeps as parent of the queued child.",
+        "note": "Behaviour over arbitrary import graphs is declined; rewind widths are decided by F1.r.",
+        "technique": "static analysis: call-graph + field-read analysis + dominance on MIR",
+        "design_ref": "DESIGN.md §3 C17",
+    },
+    "C18": {
+        "text": "Status mapping decided by def-use: Vm::run returns Exit's code, non-zero constants for both error results, Ok unreachable; main passes .0 to process::exit; exit_code has one writer and every Exit signal is constructed with a status; both ip->line translations subtract one. (Line-table lock-step is decided by F1.w/F11 as they are wired in.)",
+        "note": "That recorded lines equal the true source lines for every layout is declined.",
+        "technique": "static analysis: def-use and sibling comparison on MIR",
+        "design_ref": "DESIGN.md §3 C18",
+    },
+    "C19": {
+        "text": "Cache coverage for re-compiled modules (lengths from the numbering emitter; stored at m.id(); emitter continuation) and the REPL clauses of C15 (no exit after a failed entry; one module for the session). Equivalence of a session with the concatenated file is declined.",
+        "note": "Thin structural claim; see DESIGN.md §3 C19 for the declined clause.",
+        "technique": "static analysis: def-use on MIR",
+        "design_ref": "DESIGN.md §3 C19",
+    },
     "C05": {
         "text": "Structural necessary conditions of GC safety decided over all code: every gc-bearing field of every Trace/TraceRoot impl is traced (F5), raw-pointer holders perform their trace steps on every path (F5.p), kind<->type<->cast tables agree (F6), temp roots balance on every path (F7), GC phases are ordered and the object being allocated is rooted during the collection it triggers (F4). Decides these clauses, not schedule-independence of program output.",
         "note": "Trusts rustc's MIR (nightly, -Zmir-opt-level=0) as the program; exception table of aliased fields in lyverif/rules/f5_trace.py (one named field + reason each); the rooting discipline of native code between allocations (F8) is only in the thorough tier and under-reports by design.",
